@@ -135,6 +135,9 @@ def deep_splice(prog, f, depth=0, stack=(), only=None):
         if b["cl"] or t["t"] != "call" or t.get("to") is None:
             continue
         nm = t["f"].get("name") or ""
+        if _re.search(r"bool>?::then_some$", nm) and (only is None or "comb" in only) and len(t.get("args", [])) == 2:
+            todo.append((bi, "then_some"))
+            continue
         m = _COMB.search(nm)
         if m and (only is None or "comb" in only):
             todo.append((bi, m.group(1) or m.group(2)))
@@ -201,6 +204,14 @@ def deep_splice(prog, f, depth=0, stack=(), only=None):
             if entry is None:
                 continue
             blocks[bi]["t"] = {"t": "goto", "to": entry, "inl": ck, "ln": ln}
+            continue
+        if kind == "then_some":
+            # b.then_some(v): Some(v) if b else None
+            b_some = add_block([{"p": copy.deepcopy(dest), "rv": {"r": "agg", "k": "adt", "adt": opt, "adtn": "std::option::Option", "v": "Some", "fn": ["0"], "fields": [args[1]]},
+                                 "ln": ln, "x": False}], {"t": "goto", "to": cont})
+            b_none = add_block([{"p": copy.deepcopy(dest), "rv": {"r": "agg", "k": "adt", "adt": opt, "adtn": "std::option::Option", "v": "None", "fn": [], "fields": []},
+                                 "ln": ln, "x": False}], {"t": "goto", "to": cont})
+            blocks[bi]["t"] = {"t": "switch", "o": args[0], "cases": [[0, b_none]], "else": b_some, "ty": "bool", "ln": ln, "x": False, "inl": kind}
             continue
         # combinators
         ol = _op_local(args[0])
